@@ -9,9 +9,9 @@ CONSTANTS
   FracMode = "cell"
   AttTab <- AttLin
   DecTab <- DecLin
-  StepsA = {1, 16, 32}
+  StepsA = {1, 16, 32, 24}
   StepsD = {3}
-  StepsR = {5}
+  StepsR = {5, 16}
   Sustains = {2}
   TabShape = "linear"
   Emit = FALSE
